@@ -779,7 +779,7 @@ func (s *SMT) VerifyProof(k []byte, v []byte, validateMembership bool, root []by
 	}
 	// proofs are untrusted input: every node key must be a well-formed key that fits the tree
 	for _, n := range proof {
-		if n == nil || !validNodeKey(n.Key, s.keyBitLength) {
+		if n == nil || !validNodeKey(n.Key, s.keyBitLength) || !s.validNodeValue(n) {
 			return false, ErrInvalidMerkleTreeProof()
 		}
 	}
@@ -858,6 +858,16 @@ func (s *SMT) VerifyProof(k []byte, v []byte, validateMembership bool, root []by
 	}
 	// Verify if the value matches the provided one
 	return bytes.Equal(proof[0].Value, crypto.Hash(v)), nil
+}
+
+// validNodeValue() reports whether the value of a proof node has the length a node value has in the tree: a hash, or the
+// 20-byte value of one of the two reserved leaves. Parent hashes cover key||value||key||value without length prefixes;
+// with values of fixed length a forged proof cannot move the boundary between a node's key and its value
+func (s *SMT) validNodeValue(n *lib.Node) bool {
+	if len(n.Value) == crypto.HashSize {
+		return true
+	}
+	return len(n.Value) == 20 && (bytes.Equal(n.Key, s.minKey.bytes()) || bytes.Equal(n.Key, s.maxKey.bytes()))
 }
 
 // validNodeKey() reports whether the bytes are the encoding of a key of 1..maxBits bits as newNodeKey / addBit
